@@ -565,3 +565,17 @@ func closureFn(v ssa.Value) *ssa.Function {
 	}
 	return nil
 }
+
+// loopHeaderOf returns the innermost loop header whose body contains b: the
+// nearest dominator of b that has a predecessor it dominates (a back edge)
+// from which b is reachable... approximated as: nearest dominator with a back edge.
+func loopHeaderOf(b *ssa.BasicBlock) *ssa.BasicBlock {
+	for h := b; h != nil; h = h.Idom() {
+		for _, p := range h.Preds {
+			if h.Dominates(p) && (p == b || reachableAvoiding(b, map[*ssa.BasicBlock]bool{h: true})[p]) {
+				return h
+			}
+		}
+	}
+	return nil
+}
